@@ -607,7 +607,23 @@ func c07Lexer(c *Ctx, r *Result) {
 		i := 0
 		allInstrs(fn, func(in ssa.Instruction) {
 			ret, isRet := in.(*ssa.Return)
-			if !isRet || len(ret.Results) != 1 || !isNilConst(ret.Results[0]) {
+			if !isRet || len(ret.Results) != 1 {
+				return
+			}
+			// `return l.emitError(…)`: the emitter sends the error token and hands back the nil state
+			viaEmitter := false
+			if call, isCall := ret.Results[0].(*ssa.Call); isCall {
+				if g := call.Call.StaticCallee(); g != nil && g == emitErr && g.Signature.Results().Len() == 1 {
+					allNil := true
+					for _, rv := range returnedValues(g, 0) {
+						if !isNilConst(rv) {
+							allNil = false
+						}
+					}
+					viaEmitter = allNil
+				}
+			}
+			if !isNilConst(ret.Results[0]) && !viaEmitter {
 				return
 			}
 			n++
@@ -616,6 +632,9 @@ func c07Lexer(c *Ctx, r *Result) {
 			pos := c.Pos(c.InstrPos(in))
 			good := false
 			why := ""
+			if viaEmitter {
+				good, why = true, "the nil state is what the error emitter returns after sending its error token"
+			}
 			// preceded by emitError in the same block or a dominating one
 			allInstrs(fn, func(x ssa.Instruction) {
 				if ci, ok := x.(ssa.CallInstruction); ok && emitErr != nil && ci.Common().StaticCallee() == emitErr && dominates(x, in) {
